@@ -17,14 +17,20 @@ Generator grammar over an INDEPENDENT reading of the schema XML (rt/c01_schema.p
       swapped, comma doubled / leading / trailing / dropped, '()' inserted, forbidden character inserted at every
       token boundary, stray '#', undeclared / wrongly valued Def, altered Def-expand, second unique tag).
 
-Every case is run with allow_placeholders False and True.  Oracle: the rule -> code table of the property text.
+  part "witness": fixed minimal inputs for the narrow clauses (defects seen at design time) and their neighbours.
+
+Every case is run with allow_placeholders False and True.  Oracle: the rule -> code table of the property text
+(valid => no error-severity issue; one injected violation => the rule's code is among the error codes).
+Narrow clauses (own label per known / newly seen defect, so that the general clause next to them stays green):
+  C01.parens.equal_count_unbalanced (D1), C01.repeat.duplicate_groups_nonadjacent (D2; label chosen by a model of the
+  defect, d2_model_count), C01.valid.def_expand_member_order (D8), C01.value.bad_unit_token_before_valid_unit,
+  C01.value.datetime_out_of_range, C01.placeholder.as_extension_when_allowed,
+  C01.valid.duration_delay_in_schema_without_group_attribute (thorough tier, schemas before 8.2.0).
 The observation is the list of error-severity codes of HedValidator(schema, def_dicts).validate(HedString, ph); every
 7th case is also run through HedString.validate(ph) and must agree.
 """
-import itertools
-
 from rt.common import Workload, main, schema, codes
-from rt.c01_schema import SchemaModel, plural
+from rt.c01_schema import SchemaModel
 
 # rule -> published HED error code, written from the property statement / HED specification appendix B
 CODE = {
@@ -251,13 +257,16 @@ class Runner:
             if errs is not None:
                 self.w.check(errs == [], clause, inp, observed=errs, expected=[])
 
-    def invalid(self, text, rule, clause, phs=(False, True), any_of=None):
+    def invalid(self, text, rule, clause, phs=(False, True), any_of=None, also=None):
         want = [CODE[rule]] if any_of is None else [CODE[r] for r in any_of]
         for ph in phs:
             errs, inp = self._obs(text, ph, clause, rule)
             if errs is not None:
-                self.w.check(any(c in errs for c in want), clause, inp, observed=errs,
-                             expected={"contains_one_of": want})
+                exp = {"contains_one_of": want}
+                if also:
+                    exp["contains"] = CODE[also]
+                self.w.check(any(c in errs for c in want) and (not also or CODE[also] in errs), clause, inp, observed=errs,
+                             expected=exp)
 
 
 # =====================================================================================================
@@ -356,9 +365,11 @@ def part_vocabulary(w, run, model, vocab, defs, chunk=0, nchunks=1):
                 good, bad = special_templates(m, defs, node, sp)
                 for t in good:
                     run.valid(t)
+                temporal = node.name in ("Onset", "Offset", "Inset", "Duration", "Delay")
                 for t, rule in bad:
                     cl = {"group": CL_GROUP, "child": CL_CHILD, "unique": CL_UNIQUE, "definition": CL_GROUP}[rule]
-                    run.invalid(t, rule, cl)
+                    # a misplaced temporal tag is also a TEMPORAL_TAG_ERROR by the specification
+                    run.invalid(t, rule, cl, also="temporal" if (temporal and rule == "group") else None)
                 continue
             # ---- tags that need a child (older schemas: Label, ID, Description ...) ------------------
             if node.has("requireChild"):
@@ -407,6 +418,7 @@ def part_vocabulary(w, run, model, vocab, defs, chunk=0, nchunks=1):
                     if term.path[:len(node.path)] != node.path and term is not node:
                         # an extension that is itself a schema term
                         run.invalid(sp + "/" + term.name, "extension", CL_EXT)
+                        run.invalid(sp + "/" + EXT_WORD + "/" + term.name, "extension", CL_EXT)
                     run.invalid(sp + "/#", "placeholder", CL_PLACEHOLDER, phs=(False,))
                     if si == 0:
                         run.invalid(sp + "/#", "placeholder", CL_PLACEHOLDER_EXT, phs=(True,))
@@ -718,8 +730,9 @@ def part_grammar(w, run, model, vocab, defs, chunk=0, nchunks=1):
                             continue
                         if top:
                             # one level too deep, and unwrapped into the parent list
-                            run.invalid(render(replace_in(tree, lst, lst[:i] + [[grp]] + lst[i + 1:])), "group", CL_GROUP)
-                            run.invalid(render(replace_in(tree, lst, lst[:i] + list(grp) + lst[i + 1:])), "group", CL_GROUP)
+                            twin = None if kind == "event-context" else "temporal"
+                            run.invalid(render(replace_in(tree, lst, lst[:i] + [[grp]] + lst[i + 1:])), "group", CL_GROUP, also=twin)
+                            run.invalid(render(replace_in(tree, lst, lst[:i] + list(grp) + lst[i + 1:])), "group", CL_GROUP, also=twin)
                             if kind == "event-context":
                                 dup = ["Event-context", "Ellipse"]
                                 for p in (0, len(lst)):
@@ -773,6 +786,8 @@ def part_grammar(w, run, model, vocab, defs, chunk=0, nchunks=1):
             run.invalid(text + ",", "empty", CL_EMPTY)
             run.invalid(text + ",()", "empty", CL_EMPTY)
             run.invalid("()," + text, "empty", CL_EMPTY)
+            run.invalid(text + ",(),()", "empty", CL_EMPTY)          # two empty groups are also two equal siblings
+            run.invalid("((),())," + text, "empty", CL_EMPTY)
             # equal counts but not balanced: a matched pair swapped, a '),(' written for a comma -- kept only where the
             # result really is unbalanced (some ')' closes nothing), which is the case at nesting depth 0
             d1 = [text[:o] + ")" + text[o + 1:c] + "(" + text[c + 1:] for o, c in matched_pairs(toks)]
@@ -901,6 +916,10 @@ def part_witness(w, run, model, vocab, defs):
         run.invalid(t, "parens", CL_PARENS_D1)
     for t in ("(Red", "Red)", "((Red),Blue", "(Red))"):
         run.invalid(t, "parens", CL_PARENS)
+    for t in ("()", "Red,()", "(),()", "Red,(),()", "(Red,(),())", "Red,,Blue", ",Red", "Red,", "(Red,)", "(,Red)"):
+        run.invalid(t, "empty", CL_EMPTY)
+    for t in ("Red(Blue)", "(Red)Blue", "(Red)(Blue)"):
+        run.invalid(t, "comma", CL_EMPTY)
     run.invalid("(Red,Blue),(Green),(Blue,Red)", "repeat", CL_REPEAT_D2)
     run.invalid("((Red),(Blue)),((Green)),((Blue),(Red))", "repeat", CL_REPEAT_D2)
     for t in ("(Red,Blue),(Blue,Red)", "(Red,Blue),(Green),(Red,Blue)", "(Blue,Red),(Green),(Blue,Red)", "Red,(Green),Red",
@@ -1009,7 +1028,9 @@ def run(w: Workload):
         "unit classes no tag uses (currency '$' prefix units, memory size, electric potential, magnetic field)",
         "row/file level rules (Onset/Offset ordering, sidecar placeholder counts) and Definition declarations themselves",
         "grammar part is sampled: atoms are drawn at random from the vocabulary (all tags are covered by the sweep part only in small contexts)",
-        "non-ASCII letters inside tag names; values containing '/', parentheses or commas",
+        "non-ASCII letters inside tag names; values containing '/', parentheses or commas; characters of extension names "
+        "(hed-python accepts . + ^ and blank there); units whose name contains a blank ('degree Celsius' in 8.1/8.2)",
+        "the number of issues per violation (only: valid => none, one violation => the rule's code is present)",
     ]
     w.assumptions += [
         "the schema XML files under hed/schema/schema_data are what load_schema_version() serves (cache seeded from them)",
@@ -1034,7 +1055,7 @@ def replay(w: Workload, case: dict):
         return
     exp = case.get("expected")
     if isinstance(exp, dict) and "contains_one_of" in exp:
-        if not any(c in errs for c in exp["contains_one_of"]):
+        if not any(c in errs for c in exp["contains_one_of"]) or (exp.get("contains") and exp["contains"] not in errs):
             w.fail(clause, inp, observed=errs, expected=exp)
     elif errs != []:
         w.fail(clause, inp, observed=errs, expected=[])
